@@ -5,6 +5,10 @@ import sys
 
 
 def main(argv):
+    # kill -USR1 <pid> prints every thread's stack (inherited by workers)
+    import faulthandler
+    import signal
+    faulthandler.register(signal.SIGUSR1, all_threads=True)
     if not argv:
         print(__doc__)
         return 2
